@@ -1224,6 +1224,19 @@ func main() {
 		k++
 	}
 	runCorpus(corpusCases[2:])
+	// is a change set one atomic batch on each backend? (oracle only)
+	for _, kind := range allKinds {
+		for _, via := range []bool{false, true} {
+			if f.Want(k) {
+				n := f.N(2000, 20000)
+				if kind == "mem" {
+					n = f.N(4000, 40000)
+				}
+				runBatchAtomCase(o, f, k, kind, via, n)
+			}
+			k++
+		}
+	}
 	// concurrency cases: readers racing Persist (oracle only)
 	for i, n := 0, f.N(40, 800); i < n; i++ {
 		if f.Want(k) {
